@@ -3,6 +3,7 @@
 #![allow(clippy::all)]
 mod locks;
 mod store;
+mod track;
 mod tree;
 
 fn main() {
@@ -11,6 +12,7 @@ fn main() {
         "locks" => locks::run(&mode, &args),
         "store" => store::run(&mode, &args),
         "tree" => tree::run(&mode, &args),
+        "track" => track::run(&mode, &args),
         m => vh::unknown(m),
     }
 }
